@@ -168,39 +168,41 @@ Definition conv_ok (c : option conv) : Prop :=
   match c with Some (CFmp4 tc) => tconv_ok tc | _ => True end.
 
 (* ---------- inner loops ---------- *)
-Lemma pt_loop_np : forall procs tc el pts counts,
+Lemma pt_loop_np : forall rep procs tc el pts counts js,
   procs_ok procs -> tconv_ok tc ->
-  is_panic (pt_loop procs (Some (CFmp4 tc)) el pts counts) = false.
+  is_panic (pt_loop rep procs (Some (CFmp4 tc)) el pts counts js) = false.
 Proof.
-  intros procs tc el pts. induction pts as [|pt r IH]; intros counts Hp Hc; cbn; auto.
+  intros rep procs tc el pts. induction pts as [|pt r IH]; intros counts js Hp Hc; cbn; auto.
   destruct (find_proc procs (pt_id pt)) as [tp|] eqn:F; auto.
   pose proof (find_proc_ok _ _ _ Hp F) as [Hd Hr].
   destruct (fconvert_ok tc (wrap64 (pt_baseTime pt)) (t_clockRate (tp_track tp)) (proj1 Hc)) as [dts ->]. cbn.
   destruct (fgetNTP_ok tc dts _ Hc Hr) as [ntp ->]. cbn.
+  destruct (j_is_stuck js (tp_idx tp)); auto.
   apply bind_np; [apply process_np; split; auto|]. intros. apply IH; auto.
 Qed.
 
-Lemma pt_loop_noof : forall procs c el pts counts, is_oof (pt_loop procs c el pts counts) = false.
+Lemma pt_loop_noof : forall rep procs c el pts counts js, is_oof (pt_loop rep procs c el pts counts js) = false.
 Proof.
-  intros procs c el pts. induction pts as [|pt r IH]; intros counts; cbn; auto.
+  intros rep procs c el pts. induction pts as [|pt r IH]; intros counts js; cbn; auto.
   destruct (find_proc procs (pt_id pt)) as [tp|]; auto.
   apply bind_noof; [destruct c as [[|]|]; auto|]. intros.
   apply bind_noof; [apply fconvert_noof|]. intros.
   apply bind_noof; [apply fgetNTP_noof|]. intros.
+  destruct (j_is_stuck js (tp_idx tp)); auto.
   apply bind_noof; [apply process_loop_noof|]. intros. apply IH.
 Qed.
 
-Lemma parts_loop_np : forall procs tc el parts counts,
+Lemma parts_loop_np : forall rep procs tc el parts counts js,
   procs_ok procs -> tconv_ok tc ->
-  is_panic (parts_loop procs (Some (CFmp4 tc)) el parts counts) = false.
+  is_panic (parts_loop rep procs (Some (CFmp4 tc)) el parts counts js) = false.
 Proof.
-  intros procs tc el parts. induction parts as [|p r IH]; intros counts Hp Hc; cbn; auto.
+  intros rep procs tc el parts. induction parts as [|p r IH]; intros counts js Hp Hc; cbn; auto.
   apply bind_np; [apply pt_loop_np; auto|]. intros. apply IH; auto.
 Qed.
 
-Lemma parts_loop_noof : forall procs c el parts counts, is_oof (parts_loop procs c el parts counts) = false.
+Lemma parts_loop_noof : forall rep procs c el parts counts js, is_oof (parts_loop rep procs c el parts counts js) = false.
 Proof.
-  intros procs c el parts. induction parts as [|p r IH]; intros counts; cbn; auto.
+  intros rep procs c el parts. induction parts as [|p r IH]; intros counts js; cbn; auto.
   apply bind_noof; [apply pt_loop_noof|]. intros. apply IH.
 Qed.
 
@@ -218,10 +220,10 @@ Proof.
   assert (K : forall c1 : option conv, conv_ok c1 -> (exists tc, c1 = Some (CFmp4 tc)) ->
           is_panic (bind (Ok c1) (fun c' => procs <- build_procs 0 (f_cst p) (f_init p) ;;
              Ok ({| f_isLeading := f_isLeading p; f_init := f_init p; f_leadingTrackID := f_leadingTrackID p;
-                    f_cst := f_cst p; f_procs := Some procs |}, c'))) = false /\
+                    f_cst := f_cst p; f_procs := Some procs; f_repJoin := f_repJoin p |}, c'))) = false /\
           forall p' c', bind (Ok c1) (fun c' => procs <- build_procs 0 (f_cst p) (f_init p) ;;
              Ok ({| f_isLeading := f_isLeading p; f_init := f_init p; f_leadingTrackID := f_leadingTrackID p;
-                    f_cst := f_cst p; f_procs := Some procs |}, c')) = Ok (p', c') ->
+                    f_cst := f_cst p; f_procs := Some procs; f_repJoin := f_repJoin p |}, c')) = Ok (p', c') ->
             fsp_ok p' /\ conv_ok c' /\ f_procs p' <> None /\ (exists tc, c' = Some (CFmp4 tc))
             /\ f_isLeading p' = f_isLeading p /\ f_leadingTrackID p' = f_leadingTrackID p).
   { intros c1 Hc1 Hex. cbn [bind]. rewrite Eb. cbn [bind]. split; [reflexivity|].
@@ -403,12 +405,13 @@ Proof.
     split; [apply init_wf_facts; auto|apply init_good_of_bools; auto].
 Qed.
 
-Lemma fmp4_run_head_spec : forall repaired isLeading init0 lead ts init,
+Lemma fmp4_run_head_spec : forall repaired isLeading init0 lead ts init rj,
   head_hyp repaired init0 ->
   fmp4_run_head repaired isLeading (Some init0) = Ok (lead, ts, init) ->
-  fsp_ok {| f_isLeading := isLeading; f_init := init; f_leadingTrackID := lead; f_cst := ts; f_procs := None |}.
+  fsp_ok {| f_isLeading := isLeading; f_init := init; f_leadingTrackID := lead; f_cst := ts; f_procs := None;
+            f_repJoin := rj |}.
 Proof.
-  intros repaired isLeading init0 lead ts init H E. unfold fmp4_run_head in E.
+  intros repaired isLeading init0 lead ts init rj H E. unfold fmp4_run_head in E.
   destruct (negb isLeading && negb (zlen init0 =? 1)); [discriminate|].
   apply bind_ok in E. destruct E as [tracks [Et E]].
   destruct (effective_init _ _ _ H Et) as [Hne Hg].
